@@ -25,6 +25,13 @@ func GenOverlap(t *rapid.T) *OverlapCase {
 	if rapid.IntRange(0, 2).Draw(t, "cancels") == 0 {
 		c.CancelEvery = rapid.IntRange(1, 4).Draw(t, "cancelEvery")
 	}
+	c.Relay = rapid.IntRange(0, 2).Draw(t, "relay") == 0
+	if c.Relay {
+		// the relay needs a synchronous context-aware first handler and no
+		// publisher-side cancellations
+		c.Handlers[0].Async, c.Handlers[0].Ctx = false, true
+		c.CancelEvery = 0
+	}
 	np := rapid.IntRange(2, 8).Draw(t, "np")
 	for i := 0; i < np; i++ {
 		c.Publishers = append(c.Publishers, rapid.IntRange(1, 20).Draw(t, "n"))
